@@ -23,6 +23,7 @@ inductive TokKind
 inductive TVal
   | int (n : Int)
   | float (q : Rat)
+  | negZero                        -- the float `-0.0`, which prints as `-0.0` inside an unquoted string
   | str (s : String)
   | none
   deriving DecidableEq, Repr, Inhabited
@@ -196,7 +197,7 @@ def scanOne (cs : List Char) (line : Nat) : Scan :=
       let (w, rest) := r.span isIdCont
       .tok ⟨.id, .str (String.ofList (c :: w)), line⟩ rest line
     else match scanFloat cs with
-    | some (q, rest) => .tok ⟨.float, .float q, line⟩ rest line
+    | some (q, rest) => .tok ⟨.float, if q == 0 && c == '-' then .negZero else .float q, line⟩ rest line
     | none =>
     match scanInt cs with
     | some (n, rest) => .tok ⟨.int, .int n, line⟩ rest line
